@@ -408,6 +408,7 @@ class SymInterp(PathInterp):
     functions that differ only in how they name or stage intermediate values produce the same path summaries."""
 
     loop_unroll = 1
+    epochs = False   # True: the value of an assignment that contains a call is tagged AT(<number of statement-level calls so far>, ..)
 
     def text(self, e: ast.AST, st: Sym) -> str:
         import copy as _copy
@@ -432,6 +433,9 @@ class SymInterp(PathInterp):
             if value_node is not None and isinstance(value_node, ast.Call) and isinstance(value_node.func, ast.Attribute) and value_node.func.attr in ("copy", "deepcopy") \
                     and isinstance(value_node.func.value, ast.Name) and value_node.func.value.id == target.id and not value_node.args:
                 return st.event("copy", target.id)  # `x = x.copy()`: same content, the binding is kept
+            if value_node is not None and isinstance(value_node, ast.Call) and ast.unparse(value_node.func) in ("copy.deepcopy", "copy.copy", "deepcopy") \
+                    and len(value_node.args) == 1 and isinstance(value_node.args[0], ast.Name) and value_node.args[0].id == target.id:
+                return st.event("copy", target.id)
             if value_node is not None and (isinstance(value_node, (ast.Dict, ast.List, ast.Set)) or (
                     isinstance(value_node, ast.Call) and ast.unparse(value_node.func) in ("dict", "list", "set", "defaultdict", "collections.defaultdict", "OrderedDict") and not value_node.args)):
                 # a fresh mutable container: an object that later statements fill; the name stays (it is not a staging alias)
@@ -479,12 +483,47 @@ class SymInterp(PathInterp):
             return self.text(it.elt, inner)
         return f"ITEM({i}, {self.text(it, st)})"
 
+    def _tag(self, vt: str, node: ast.AST, st: Sym) -> str:
+        if self.epochs and any(isinstance(n, ast.Call) for n in ast.walk(node)):
+            try:
+                top = ast.parse(vt, mode="eval").body
+            except SyntaxError:
+                return vt
+            if isinstance(top, ast.Call) and ast.unparse(top.func) == "AT":
+                return vt
+            # only calls that are not already tagged need the epoch of this statement
+            k = sum(1 for e in st.events if e[0] == "call")
+
+            class T(ast.NodeTransformer):
+                def visit_Call(self_i, n):
+                    if ast.unparse(n.func) == "AT":
+                        return n
+                    if ast.unparse(n.func) in ("ITEM", "KEY", "VALUE", "ROW"):
+                        return n
+                    self_i.generic_visit(n)
+                    return ast.Call(func=ast.Name(id="AT", ctx=ast.Load()), args=[ast.Constant(value=k), n], keywords=[])
+            return ast.unparse(T().visit(top))
+        return vt
+
     def simple(self, stmt, st: Sym):
         if isinstance(stmt, ast.Assign):
             st = self._walrus(stmt.value, st)
-            vt = self.text(stmt.value, st)
+            v = stmt.value
+            # `a, b = (f(x) for x in (p, q))`: element-wise
+            if len(stmt.targets) == 1 and isinstance(stmt.targets[0], (ast.Tuple, ast.List)) and isinstance(v, (ast.GeneratorExp, ast.ListComp)) \
+                    and len(v.generators) == 1 and not v.generators[0].ifs and isinstance(v.generators[0].iter, (ast.Tuple, ast.List)) \
+                    and len(v.generators[0].iter.elts) == len(stmt.targets[0].elts) and isinstance(v.generators[0].target, ast.Name):
+                g = v.generators[0]
+                for t, item in zip(stmt.targets[0].elts, g.iter.elts):
+                    inner = st.set(g.target.id, self.text(item, st))
+                    st = self.assign(t, self._tag(self.text(v.elt, inner), v.elt, st), st)
+                    if self.epochs and any(isinstance(n, ast.Call) for n in ast.walk(v.elt)):
+                        st = st.event("eval", "")
+                yield ("normal", st)
+                return
+            vt = self._tag(self.text(v, st), v, st)
             for t in stmt.targets:
-                st = self.assign(t, vt, st, stmt.value)
+                st = self.assign(t, vt, st, v)
             yield ("normal", st)
         elif isinstance(stmt, ast.AnnAssign) and stmt.value is not None:
             st = self._walrus(stmt.value, st)
@@ -492,8 +531,13 @@ class SymInterp(PathInterp):
         elif isinstance(stmt, ast.AugAssign):
             op = {ast.Add: "+", ast.Sub: "-", ast.Mult: "*", ast.Div: "/", ast.BitOr: "|", ast.BitAnd: "&"}.get(type(stmt.op), "?")
             cur = st.get(stmt.target.id, stmt.target.id) if isinstance(stmt.target, ast.Name) else self.text(stmt.target, st)
-            simple = cur.replace(".", "").replace("_", "").isalnum()
-            yield ("normal", self.assign(stmt.target, f"{cur if simple else '(' + cur + ')'} {op} {self.text(stmt.value, st)}", st))
+            val = self._tag(self.text(stmt.value, st), stmt.value, st)
+            raw = f"({cur}) {op} ({val})"
+            try:
+                raw = ast.unparse(ast.parse(raw, mode="eval"))  # drops redundant parentheses
+            except SyntaxError:
+                pass
+            yield ("normal", self.assign(stmt.target, raw, st))
         elif isinstance(stmt, ast.Expr):
             st = self._walrus(stmt.value, st)
             if isinstance(stmt.value, ast.Call):
@@ -517,6 +561,11 @@ class SymInterp(PathInterp):
         t = test
         while isinstance(t, ast.UnaryOp) and isinstance(t.op, ast.Not):
             pol, t = not pol, t.operand
+        # canonical polarity: `X is not None` is decided as `X is None` with the opposite outcome; likewise `!=` / `not in`
+        if isinstance(t, ast.Compare) and len(t.ops) == 1 and isinstance(t.ops[0], (ast.IsNot, ast.NotEq, ast.NotIn)):
+            flip = {ast.IsNot: ast.Is, ast.NotEq: ast.Eq, ast.NotIn: ast.In}[type(t.ops[0])]
+            t = ast.copy_location(ast.Compare(left=t.left, ops=[flip()], comparators=t.comparators), t)
+            pol = not pol
         txt = self.text(t, st)
         if txt in ("None is None", "None is not None"):
             val = (txt == "None is None") == pol
